@@ -98,6 +98,22 @@ extern "C" void proof_da_iter() {
   VASSERT(C19, ok && n == a._count, "iteration visits items 0..count-1 in order");
 }
 
+// ---- code contract (contracts/array.spec) on the append used by the request queue; dfcc entry points
+#if !defined(PAYLOAD_INT) && CAP == 4
+static_assert(__builtin_offsetof(DA, _count) == 0, "contracts/array.spec addresses DynamicArrayT::_count as field f0 of the lowered record");
+extern "C" {
+unsigned da_capacity(void) { return CAP; }
+bool da_item_is(const DA* a, unsigned i, const Item* it) { return i < CAP && item_eq(a->_items[i], *it); }
+void dfcc_da_emplace() { DA a; Item x; nd_item(x); a.emplace(x); VREACH("the contract's precondition is satisfiable: the call returns"); }
+// a caller that respects the precondition, verified against the callee's CONTRACT only: append into an empty array
+void dfcc_da_client() {
+  DA a; Item x; nd_item(x);
+  const auto r = a.emplace(x);
+  __CPROVER_assert(r == 0 && a.count() == 1 && da_item_is(&a, 0, &x), "C19: client: the first append lands in slot 0 (by the callee contract alone)");
+  VREACH("the callee contract is consistent: the client reaches its end");
+}
+}
+#endif
 extern "C" void proof_sa() {
   SA s; for (unsigned i = 0; i < CAP; ++i) s._items[i] = nd_u8();
   SA t; for (unsigned i = 0; i < CAP; ++i) t._items[i] = nd_u8();
